@@ -33,7 +33,7 @@ type coreCfg struct {
 	HasL     bool
 	OnDialer bool // options set on the dialer itself; the socket keeps other values
 	Steps    []string
-	Scripts  []string // per created pipe: none | closeAttaching | closeAttached | refuse | dropInAdd
+	Scripts  []string // per created pipe: none | closeAttaching | closeAttached | refuse | dropInAdd | closeInDetached
 }
 
 type coreScn struct {
@@ -200,7 +200,8 @@ func runCore(t *testing.T, cfg coreCfg) sim.Result {
 			c.mp[name] = p
 			c.mpMu.Unlock()
 			if (ev == "attaching" && scriptOf(name) == "closeAttaching") ||
-				(ev == "attached" && scriptOf(name) == "closeAttached") {
+				(ev == "attached" && scriptOf(name) == "closeAttached") ||
+				(ev == "detached" && scriptOf(name) == "closeInDetached") { // closing again what is already closed: allowed, no effect
 				_ = p.Close()
 			}
 		})
@@ -265,6 +266,9 @@ func coreScripted() []coreCfg {
 		{HasL: true, MinT: 100 * ms, Scripts: []string{"closeAttaching", "none"}, Steps: []string{"listen", "offer", "offer", "drop p2"}},
 		{HasL: true, MinT: 100 * ms, Scripts: []string{"refuse", "closeAttached", "none"}, Steps: []string{"listen", "offer", "offer", "offer", "appclose p3"}},
 		{HasL: true, MinT: 100 * ms, Scripts: []string{"dropInAdd", "none"}, Steps: []string{"listen", "offer", "offer"}},
+		// the Detached callback closes the pipe once more (a no-op) - it runs outside every lock, the dialer redials meanwhile
+		{HasL: true, MinT: 100 * ms, Scripts: []string{"closeInDetached", "none", "closeInDetached"}, Steps: []string{"listen", "offer", "offer", "drop p1", "offer", "appclose p3", "drop p2"}},
+		{Asynch: true, MinT: 100 * ms, MaxT: 0, HasD: true, Scripts: []string{"closeInDetached", "closeInDetached"}, Steps: []string{"dial", "ansok", "drop p1", "adv 100ms", "ansok", "appclose p2", "adv 100ms", "ansok", "adv 1s"}},
 		{HasL: true, MinT: 100 * ms, Steps: []string{"listenerr", "listen", "listen", "listen", "offer", "lclose", "offer"}},
 		{Asynch: true, MinT: 100 * ms, MaxT: 100 * ms, HasD: true, Scripts: []string{"refuse", "dropInAdd"}, Steps: []string{"dial", "ansok", "adv 100ms", "ansok", "adv 100ms", "ansok", "dclose", "drop p3", "adv 1s"}},
 	}
@@ -320,7 +324,7 @@ func coreRandom(rng *rand.Rand) coreCfg {
 	default:
 		c.HasD, c.HasL = true, true
 	}
-	scripts := []string{"none", "none", "none", "closeAttaching", "closeAttached", "refuse", "dropInAdd"}
+	scripts := []string{"none", "none", "none", "closeAttaching", "closeAttached", "refuse", "dropInAdd", "closeInDetached"}
 	for i := 0; i < 8; i++ {
 		c.Scripts = append(c.Scripts, scripts[rng.Intn(len(scripts))])
 	}
